@@ -274,6 +274,9 @@ func matchTrigger(prop string, kf *findings.Set, c *core.Case, class string, v *
 			return used[0]
 		}
 	}
+	if os.Getenv("VERIF_DEBUG_NOMATCH") != "" && f != nil {
+		fmt.Fprintf(os.Stderr, "NOMATCH prop %s class %s cfg %s verdict %+v conflict=%+v\n", prop, class, c.Cfg, v, f.tConflict)
+	}
 	return ""
 }
 
